@@ -11,6 +11,7 @@ type DevStep struct {
 	D int    `json:"d"`
 	E string `json:"e,omitempty"` // "", eof, ueof, err, weof, closed
 	J int64  `json:"j,omitempty"` // this Read takes J milliseconds of simulated time (clock seam) before it returns
+	G bool   `json:"g,omitempty"` // this Read takes long enough for a garbage-collection cycle (and finalizers) to complete
 }
 
 // Dev is a device: a byte stream (explicit hex prefix, then a deterministic
